@@ -225,6 +225,25 @@ def cubes_role(tier, seed):
     return out
 
 
+import collections.abc as _abc
+
+
+class _ROMapping(_abc.Mapping):
+    """A Mapping that is not a dict."""
+
+    def __init__(self, d):
+        self._d = dict(d)
+
+    def __getitem__(self, k):
+        return self._d[k]
+
+    def __iter__(self):
+        return iter(self._d)
+
+    def __len__(self):
+        return len(self._d)
+
+
 FILE_ROLES = ['admin', '\u00c4rztin', 'caf\u00c9', '\u0436\u0416x', 'a\u00e9-1']
 
 
@@ -251,6 +270,18 @@ def run_file(ctx, place, fmt):
     target = {'k': x[4:]} if form == 'placeholder' else {}
     if form == 'placeholder':
         match = x[:4] + '%(k)s'
+        # the target is documented as "a dict or any object that fully
+        # supports the Mapping abstract base class"
+        import collections
+        import types
+        tkind = str(ctx.choice('target_kind', [
+            'dict', 'MappingProxyType', 'UserDict', 'ChainMap',
+            'OrderedDict', 'custom-Mapping']))
+        target = {'dict': dict, 'MappingProxyType': types.MappingProxyType,
+                  'UserDict': collections.UserDict,
+                  'ChainMap': lambda d: collections.ChainMap({}, d),
+                  'OrderedDict': collections.OrderedDict,
+                  'custom-Mapping': _ROMapping}[tkind](target)
     doc = {'p': 'role:' + match, 'q': 'role:other'}
     if fmt == 'json':
         text = json.dumps(doc, ensure_ascii=False)
